@@ -63,6 +63,7 @@ type SimStats struct {
 	CrashStack   string         `json:"crash_stack,omitempty"`
 	Hang         string         `json:"hang,omitempty"`
 	YCalls       uint64         `json:"y_calls"`
+	Races        []string       `json:"races,omitempty"`
 }
 
 type FileObs struct {
